@@ -19,6 +19,9 @@ CUR = ["A(0) S(0,1) T(0,1) W(0,1) R(1,0) Z", "A(0) A(1) S(0,1) T(0,1) Z", "S(0,1
 CUR += ["A(0) W(0,1) A(1) R(0,0) Z", "A(0) W(0,1) A(1) R(0,1) W(0,1) R(1,0) Z", "A(0) R(0,1) A(1) W(0,1)", "A(0) S(0,1) A(1) T(0,1) Z", "A(0) S(0,0) S(1,1) A(1) T(0,1) T(0,1) Z",
         "A(0) Q(1) W(0,1) W(0,1) A(1) R(0,0) R(1,0) Z", "B(1) A(0) S(0,0) S(1,0) A(1) T(0,1) T(0,1) Z", "A(0) A(1) W(0,1) R(0,0) S(1,1) T(0,1) Z"]
 CUR += ["A(0) R(0,1) R(1,1) W(0,1) W(0,1) Z", "A(0) R(0,1) R(1,1) R(2,1) W(0,1) W(0,1) Z"]
+# back-pressure with a send buffer: connection busy, buffer full, further sends blocked - when the peer reads again the buffered messages go first and
+# the blocked senders' messages join the tail (send order = the order the sends were issued)
+CUR += ["B(1) A(0) S(0,1) S(1,1) S(2,1) T(0,1) T(0,1) T(0,1) Z", "B(1) A(0) S(0,1) S(1,1) S(2,1) S(3,1) T(0,1) T(0,1) T(0,1) T(0,1) Z", "B(2) A(0) S(0,1) S(1,1) S(2,1) S(3,1) T(0,1) T(0,1) T(0,1) T(0,1) Z"]
 ALPHA = ["A(0)", "A(1)", "S(%d,1)", "S(%d,0)", "R(%d,0)", "R(%d,1)", "T(0,1)", "W(0,1)", "W(0,2)", "C(0)", "B(1)", "Q(1)"]
 
 
